@@ -218,6 +218,8 @@ class Normalizer:
         self.new_funcs = {q: f for q, f in repo.funcs.items() if q not in self.inv_funcs}
         for f in list(repo.funcs.values()):
             self._replace_node(f, self.fold_new_constants(f))
+        for f in list(repo.funcs.values()):
+            self._replace_node(f, self.canonical_syntax(f))
         # N1 - callers first see the raw helper bodies; nested helper calls are resolved by iterating
         for _ in range(6):
             changed = False
@@ -333,6 +335,50 @@ class Normalizer:
         if isinstance(v, (bool, int, bytes, str)) and not isinstance(v, ast.AST):
             return ast.Constant(value=v)
         return None
+
+    # ------------------------------------------------------------------------------------------ N13-N15
+    def canonical_syntax(self, f: Func) -> t.Optional[FuncNode]:
+        """N13  if not c: A else: B  ->  if c: B else: A   (an else branch exists and is not an elif chain)
+        N14  CONST <op> x  ->  x <flipped op> CONST          (single comparison, the left operand folds to a constant, the right does not)
+        N15  x = x <op> e  ->  x <op>= e                     (x a local name; +, -, |, &, <<, >>: the rules read both as the same update)"""
+        locals_ = stored_names(f.node) | {a.arg for a in _params(f.node)}
+        repo = self.repo
+        hit = [False]
+        flip: t.Dict[t.Any, t.Any] = {ast.Eq: ast.Eq, ast.NotEq: ast.NotEq, ast.Lt: ast.Gt, ast.LtE: ast.GtE, ast.Gt: ast.Lt, ast.GtE: ast.LtE}
+
+        def constlike(e: ast.expr) -> bool:
+            if any(isinstance(x, ast.Name) and x.id in locals_ for x in ast.walk(e)) or not _is_pure(e):
+                return False
+            ok, v = repo.try_fold(e, f.mod)
+            return ok and not isinstance(v, (Cls, Func))
+
+        class T(ast.NodeTransformer):
+            def visit_If(self, node: ast.If) -> ast.AST:
+                self.generic_visit(node)
+                if node.orelse and isinstance(node.test, ast.UnaryOp) and isinstance(node.test.op, ast.Not) and not (len(node.orelse) == 1 and isinstance(node.orelse[0], ast.If)):
+                    node.test = node.test.operand
+                    node.body, node.orelse = node.orelse, node.body
+                    hit[0] = True
+                return node
+
+            def visit_Compare(self, node: ast.Compare) -> ast.AST:
+                self.generic_visit(node)
+                if len(node.ops) == 1 and type(node.ops[0]) in flip and constlike(node.left) and not constlike(node.comparators[0]):
+                    node.left, node.comparators[0] = node.comparators[0], node.left
+                    node.ops = [flip[type(node.ops[0])]()]
+                    hit[0] = True
+                return node
+
+            def visit_Assign(self, node: ast.Assign) -> ast.AST:
+                self.generic_visit(node)
+                if len(node.targets) == 1 and isinstance(node.targets[0], ast.Name) and isinstance(node.value, ast.BinOp) and isinstance(node.value.left, ast.Name) and node.value.left.id == node.targets[0].id and node.targets[0].id in locals_ and isinstance(node.value.op, (ast.Add, ast.Sub, ast.BitOr, ast.BitAnd, ast.LShift, ast.RShift)):
+                    hit[0] = True
+                    return ast.copy_location(ast.AugAssign(target=node.targets[0], op=node.value.op, value=node.value.right), node)
+                return node
+
+        new = copy.deepcopy(f.node)
+        T().visit(new)
+        return new if hit[0] else None
 
     def fold_new_constants(self, f: Func) -> t.Optional[FuncNode]:
         locals_ = stored_names(f.node) | {a.arg for a in _params(f.node)}
